@@ -39,10 +39,10 @@ def unknownCodegenReads : List String := []
 /-- disagreements between the ast extraction and the probing of live instances -/
 def extractionMismatches : List String := []
 
-/-- how `compile_cython_module` names the on-disk module (ast of compile.py): `'mod%08x' % zlib.adler32(src.encode())` -/
-def modnameAlg : String := "unknown"
-def modnameBits : Nat := 0
-def modnameOfFullSource : Bool := false
+/-- how `compile_cython_module` names the on-disk module (ast of compile.py): `'mod' + hashlib.shake_128(src.encode()).hexdigest(8)` -/
+def modnameAlg : String := "shake_128"
+def modnameBits : Nat := 64
+def modnameOfFullSource : Bool := true
 def cryptographicDigests : List String :=
   ["shake_128", "shake_256", "md5", "sha1", "sha224", "sha256", "sha384", "sha512", "sha3_224", "sha3_256", "sha3_384", "sha3_512", "blake2b", "blake2s"]
 
